@@ -23,7 +23,7 @@ CHECKS = {
    note=TLC_BASE, ref="5 (C03)"),
  "C04": dict(cat="model_checking", tech="TLA+ trace validation with cost/depth bookkeeping in the machine; class determined by the spec (ClassIds)",
    text="Every class of every configuration (5962 pairs), several locally-equivalent presentations each, three APIs: machine bookkeeping (cost, ASAP two-qubit depth) must equal the lookup metadata of the class the SPEC assigns to the target; observed pairs single-valued per class. The table line of a class is found by class key (independent of class ids); "
-        "the graph state of every table line is requested on its own connectivity as well.",
+        "the graph state of every table line is requested on its own connectivity as well; one Stabilizer / circuit object is passed through every connectivity and API in turn.",
    note=TLC_BASE, ref="5 (C04)"),
  "C05": dict(cat="model_checking", tech="TLC breadth-first search of the class-level quotient (Optimality.tla, VIEW = class key): BFS level = minimal two-qubit count over all competitor circuits",
    text="Universally quantified competitor circuits are decided by exhaustive BFS in the class-level model for all 20 coupling graphs; the actual cost of every table circuit is measured by the tableau machine; "
@@ -35,21 +35,21 @@ CHECKS = {
         "is replayed into determine_lc_class with re-mixed generators/signs/local layers and judged by TLC.",
    note=TLC_BASE + "; quick tier for n=6: every stabilizer state is LC-equivalent to a graph state (Van den Nest 2004), model-checked in the thorough tier", ref="4.5, 5 (C06)"),
  "C07": dict(cat="model_checking", tech="TLC-generated behaviours (complete transition graph for small n, -simulate for n<=6) replayed into compress_preparation_circuit; trace validation",
-   text="Input programs are behaviours of the full-vocabulary tableau machine (every (state, gate) transition for n=2[,3]; random behaviours up to length 120/200 for n=2..6); the spec computes the program's state itself and validates the compressed circuit as a behaviour reaching it.",
+   text="Input programs are behaviours of the full-vocabulary tableau machine (every (state, gate) transition for n=2[,3]; random behaviours up to length 120/200 for n=2..6); the spec computes the program's state itself and validates the compressed circuit as a behaviour reaching it; one circuit object is compressed for every connectivity in turn; part of the circuits have their qubits in two quantum registers.",
    note=TLC_BASE + "; program length bounded", ref="5 (C07)"),
  "C09": dict(cat="model_checking", tech="TLA+ trace validation of all MUB circuits + declarative family judgement (partition of the Pauli group) evaluated by TLC",
-   text="Exhaustive over the 20 configurations: all 744 (basis, circuit) pairs validated on the tableau machine (all 2^n elements Z-type, coupled); family-level: counts, valid bases, disjointness, completeness (4^n-1), info dictionary vs the spec's cost model, no worse than the library's readout.",
+   text="Exhaustive over the 20 configurations: all 744 (basis, circuit) pairs validated on the tableau machine (all 2^n elements Z-type, coupled); family-level: counts, valid bases, disjointness, completeness (4^n-1), info dictionary vs the spec's cost model, no worse than the library's readout; every family is requested a second time after the caller modified the first answer.",
    note=TLC_BASE, ref="5 (C09)"),
  "C17": dict(cat="model_checking", tech="TLA+ trace validation of every table line on the tableau machine (exhaustive)",
-   text="Exhaustive: each of the 6722 lines (20 supported tables + stray file) is replayed on the tableau machine: graph state modulo signs, cost and depth columns, class of the graph = line index, vocabulary, indices, coupling, line count; two independent parses must agree.",
+   text="Exhaustive: each of the 6722 lines (20 supported tables + stray file) is replayed on the tableau machine: graph state modulo signs, cost and depth columns, class of the graph = line index, vocabulary, indices, coupling, line count; two independent parses must agree; each line is parsed, edited by the caller and parsed again - the second answer is judged.",
    note=TLC_BASE, ref="5 (C17)"),
  "C18": dict(cat="model_checking", tech="TLC: executable Gauss-Jordan in TLA+ checked against the declarative meaning on all matrices <= 4x4; every matrix replayed into f2_algebra; call records judged by TLC",
-   text="All 74954 matrices up to 4x4 (exhaustive) plus seeded strata up to 36x24: rref, pivots, rank, basis change and inverse, null space (annihilated, independent, n-rank, exact for n<=10, well-typed when empty), input unchanged.",
+   text="All 74954 matrices up to 4x4 (exhaustive) plus seeded strata up to 36x24: rref, pivots, rank, basis change and inverse, null space (annihilated, independent, n-rank, exact for n<=10, well-typed when empty), input unchanged; int8 / int32 / int64 / uint8 / boolean arrays.",
    note="TLC; uniqueness of RREF (model-checked up to 3x3); projection of numpy arrays to nested lists", ref="5 (C18)"),
 
  "C08": dict(cat="model_checking", tech="TLC builder model (all operator lists n=2; strata n<=6) replayed into the APIs; request/config records judged by TLC against ValidStabilizer and the documented configuration set; design-level TLC model of the pipeline for arbitrary requests (PipelineFaults) whose admitted outcomes are compared with the code's",
    text="Arbitrary operator lists (valid or not, both formats) and every (entry point, n in 1..8, name) pair: validate() = ValidStabilizer; a returned preparation circuit is for a valid stabilizer and is stabilised by all given operators; "
-        "a returned readout diagonalises all given operators; entry points return iff the pair is one of the 20 advertised ones.",
+        "a returned readout diagonalises all given operators; entry points return iff the pair is one of the 20 advertised ones; the synthesis helper called directly with lists of any length and all flag combinations: a returned circuit's state is stabilised by every given operator.",
    note=TLC_BASE, ref="5 (C08)"),
  "C10": dict(cat="model_checking", tech="TLA+ measurement semantics + PullBack on the tableau machine; TLC computes exact statistics for the real circuits and judges the real fitters' output as exact rationals",
    text="Continuum reduced to discrete operator identities (linearity): the real fitter on arbitrary integer count dictionaries for every circuit of every configuration must report sigma*Parity under the key the spec obtains by pulling Z^s back through the readout circuit; "
